@@ -6,6 +6,7 @@ from ..terms import SchemaT, RuleT, PathT, show
 from .. import model, build, gen as G
 from ..snapshot import exact, fingerprint, fp_diff, Trace, aliases
 from . import c15
+from . import edits
 
 ID = "C08"
 RULE = (
@@ -380,6 +381,8 @@ def tests(tier):
         TestSpec("history", gen_case, body, {"quick": 400, "thorough": 40000}, tape=3072, fuzz={"thorough": 5000}),
         TestSpec("history-machine", gen_case, body, {"quick": 80, "thorough": 6000}, tape=3072, machine=machine),
     ]
+    # the caller edits its own document in place between calls (all five kinds of call)
+    ts += [edits.spec(k, 300, 30000) for k in edits.KINDS]
     if tier == "thorough":
         ts.append(TestSpec("threads", gen_case, body_threads, {"quick": 50, "thorough": 3000}, tape=3072))
     return ts
